@@ -132,6 +132,7 @@ func run(p *hx.Plan) []hx.Event {
 		infos            []*pb.CollectionInfo
 		g                = &gates{arrivals: map[string]int{}}
 		announced        = map[string]int{} // v -> number of fwdchecks that announced v
+		failedKeys       = map[string]bool{} // keys offered by a collection start that failed on a later shard
 		bad              string
 	)
 	quiesce := func() {
@@ -149,9 +150,19 @@ func run(p *hx.Plan) []hx.Event {
 				}
 			}
 		}
+		assigned := map[string]bool{}
+		for _, s := range sources {
+			for _, t := range targets {
+				if cm.CheckKeyExist(s, t) {
+					assigned[cm.GetMapKey(s, t)] = true
+				}
+			}
+		}
 		waiting := []string{}
 		for _, h := range views {
-			if !h.Started {
+			// a handler created by a collection start that failed afterwards is never started although its pair was
+			// assigned: that is not "waiting for a forwarded channel"
+			if !h.Started && !(failedKeys[h.Key] && assigned[h.Key]) {
 				waiting = append(waiting, h.Key)
 			}
 		}
@@ -185,7 +196,7 @@ func run(p *hx.Plan) []hx.Event {
 			if err != nil {
 				panic(err)
 			}
-			m, err := reader.NewReplicateChannelManager(pfake.NewDispatch(), &pfake.Factory{}, target, config.ReaderConfig{
+			m, err := reader.NewReplicateChannelManager(pfake.NewDispatch(), &pfake.Factory{FailChannelPrefix: "zzfail"}, target, config.ReaderConfig{
 				MessageBufferSize: 64, TTInterval: 3600000, Retry: config.RetrySettings{RetryTimes: 1, InitBackOff: 1, MaxBackOff: 1},
 				SourceChannelNum: s, TargetChannelNum: t, ReplicateID: rid,
 			}, metaop, rm, nil, "milvus")
@@ -195,21 +206,36 @@ func run(p *hx.Plan) []hx.Event {
 			m.SetCtx(ctx)
 			mgr = m
 			reader.VerifGate = g.gate
-		case "offer":
+		case "offer", "offerfail":
+			// offerfail: the collection has a second shard (sorted after the first one) whose stream cannot be opened:
+			// startReadChannel of the first shard runs as in "offer", then StartReadCollection fails and undoes what it can
 			id := int64(100 + len(infos))
 			name := fmt.Sprintf("c%d", id)
 			sv := fmt.Sprintf("%s_%dv0", hx.S(st, "s"), id)
 			tv := fmt.Sprintf("%s_%dv0", hx.S(st, "t"), id+1000)
-			target.Set("default", name, &pfake.TColl{ID: id + 1000, DB: "default", VChannels: []string{tv}, Partitions: map[string]int64{}, Late: map[string]int64{}})
+			svs, tvs, pcs := []string{sv}, []string{tv}, []string{hx.S(st, "s")}
+			starts := []*commonpb.KeyDataPair{{Key: hx.S(st, "s"), Data: []byte("start-" + sv)}}
+			if op == "offerfail" {
+				svs = append(svs, fmt.Sprintf("zzfail%d_%dv1", id, id))
+				tvs = append(tvs, fmt.Sprintf("zzfail%d_%dv1", id, id+1000))
+				pcs = append(pcs, fmt.Sprintf("zzfail%d", id))
+				starts = append(starts, &commonpb.KeyDataPair{Key: pcs[1], Data: []byte("start-" + svs[1])})
+			}
+			target.Set("default", name, &pfake.TColl{ID: id + 1000, DB: "default", VChannels: tvs, Partitions: map[string]int64{}, Late: map[string]int64{}})
 			metaop.DBOf[id] = model.DatabaseInfo{ID: 1, Name: "default"}
 			metaop.Names[id] = name
 			info := &pb.CollectionInfo{ID: id, DbId: 1, Schema: &schemapb.CollectionSchema{Name: name},
-				VirtualChannelNames: []string{sv}, PhysicalChannelNames: []string{hx.S(st, "s")},
-				StartPositions: []*commonpb.KeyDataPair{{Key: hx.S(st, "s"), Data: []byte("start-" + sv)}},
-				State:          pb.CollectionState_CollectionCreated, CreateTime: 1, ShardsNum: 1}
+				VirtualChannelNames: svs, PhysicalChannelNames: pcs,
+				StartPositions: starts,
+				State:          pb.CollectionState_CollectionCreated, CreateTime: 1, ShardsNum: int32(len(svs))}
 			infos = append(infos, info)
 			err := mgr.StartReadCollection(util.GetCtxWithTaskID(ctx, "task1"), &model.DatabaseInfo{ID: 1, Name: "default"}, info, nil, map[string]uint64{})
 			ev["err"] = err != nil
+			if op == "offerfail" {
+				if cm, _, _ := reader.VerifChannelState(mgr); cm != nil {
+					failedKeys[cm.GetMapKey(hx.S(st, "s"), hx.S(st, "t"))] = true
+				}
+			}
 			quiesce()
 		case "fwdcheck":
 			v := hx.S(st, "v")
